@@ -131,6 +131,18 @@ def c07(ctx):
     return [SelfTest(), Native("differential", "c07")]
 
 
+def c08(ctx):
+    return [Native("keys", "c08")]
+
+
+def c09(ctx):
+    return [Native("strings", "c09")]
+
+
+def c10(ctx):
+    return [Native("matrix", "c10")]
+
+
 PROPS = {
     "C01": {
         "level": "exploration",
@@ -196,5 +208,30 @@ PROPS = {
         "stages": c07,
         "floor": {"quick": 8000, "thorough": 100000},
         "assumptions": ["AES-CTR uses a 128-bit big-endian counter (OpenSSL aes-256-ctr); Argon2 memory in bytes is rounded down to KiB as libsodium does"],
+    },
+    "C08": {
+        "level": "exploration",
+        "level_text": "Key monitor on all six backends and all five key kinds: thousands of generated keys and tens of thousands of candidate byte strings (every length 0..128, random strings of the right length of which about half are curve points, scalars around the group order, the degenerate-encoding catalogue). Acceptance is compared with the harness's own validity predicate; accepted keys must re-encode identically, round-trip through text and clone, derive the public key an independent implementation derives, and that public key must verify the key's signatures.",
+        "level_note": "Trusted: the validity predicate (plain big-integer curve arithmetic for P-384 and edwards25519, the other primitive family for public-key derivation; for RSA the rsa crate's DER/PEM reader plus the modulus size). Ed25519 small-order points are not required to be rejected (the official vector k4.public-1 is one).",
+        "technique": "runtime acceptance/round-trip monitor against an independent key-validity predicate",
+        "stages": c08,
+        "floor": {"quick": 20000, "thorough": 300000},
+        "assumptions": ["'identity points are rejected' is applied to the P-384 point at infinity; the all-zero Ed25519 key of the official vectors is a small-order point and must be accepted"],
+    },
+    "C09": {
+        "level": "exploration",
+        "level_text": "String-acceptance monitor for all 15 FromStr/Display pairs at all six backends: acceptance must equal the verdict of an independent, table-driven strict base64url codec (header exact, canonical unpadded body, exact length for ids), accepted strings must re-serialise identically and their serde form must be the Display string. The final-block space (64^2 + 64^3 tails) is enumerated exhaustively, every position is overwritten with every ASCII byte and multibyte characters, every byte string of length 0..300 is encoded and decoded.",
+        "level_note": "Trusted: the harness's own base64 codec (unit-tested against RFC 4648 vectors). Inputs are valid UTF-8 only because FromStr takes &str - the one place where the quantifier's 'all 256 byte values' is narrowed.",
+        "technique": "runtime acceptance monitor against an independent strict codec, with exhaustive final-block enumeration",
+        "stages": c09,
+        "floor": {"quick": 300000, "thorough": 3000000},
+    },
+    "C10": {
+        "level": "exploration",
+        "level_text": "Cross-acceptance matrix: at least ten generated serialisations (plus all positive official vectors) of each of the 15 classes x 4 versions from every backend are offered to all 23 parser instantiations of each of the six backends (~140 parsers); acceptance must be exactly the diagonal (same version and class). Raw key bytes of every class are offered to every other class's byte constructor, and wrapped/sealed blobs re-labelled with every other kind/version header must fail to unwrap. The matrix of (class, parser) cells is complete; values per cell are sampled.",
+        "level_note": "Trusted: the expected-acceptance table written from the PASERK/PASETO header grammar. v3/v3lc and v4/v4na sharing text forms, and Public/PkePublic (Secret/PkeSecret) sharing a header, are intended and encoded in the table.",
+        "technique": "runtime acceptance monitor over the full (value class x parser) matrix",
+        "stages": c10,
+        "floor": {"quick": 50000, "thorough": 200000},
     },
 }
